@@ -46,7 +46,7 @@ func TestDeterminism(t *testing.T) {
 		solid := &ySolid{Solid: model3d.JoinedSolid{&model3d.Sphere{Center: model3d.XYZ(0.03, 0.01, 0.02), Radius: 0.61},
 			&model3d.Sphere{Center: model3d.XYZ(0.73, 0.2, 0.1), Radius: 0.37}}, every: 5}
 		var out string
-		res := simsched.Run(t, simsched.Config{Src: src, Sticky: seed % 3, KeepSteps: 0,
+		res := simsched.Run(t, simsched.Config{Src: src, Sticky: seed % 3, KeepSteps: 0, Policy: simsched.DrawPolicy(src),
 			Knobs: map[string]int{"mc.subDivideVolume": 8, "mc.divideVolume": 16}}, func() {
 			m1 := model3d.MarchingCubesFilter(solid, func(*model3d.Rect) bool { return true }, 0.21)
 			m2 := model3d.MarchingCubes(solid, 0.21)
@@ -54,5 +54,83 @@ func TestDeterminism(t *testing.T) {
 		})
 		fmt.Printf("DET seed=%d workers=%d steps=%d tasks=%d preempt=%d hash=%s dead=%v live=%v panic=%v out=%s\n",
 			seed, workers, res.Steps, res.Tasks, res.Preemptions, res.TraceHash, res.Deadlock, res.Livelock, res.Panic, out)
+	}
+}
+
+// TestPolicies: what the unfair policies promise.  Oldest-first never lets a
+// younger task take a step while an older one can run; a task that spins on a
+// flag which only a stalled task sets still finishes (fairness fallback); an
+// old replay file (no auxiliary tape) keeps the random policy.
+func TestPolicies(t *testing.T) {
+	if p := simsched.DrawPolicy(choice.Replay([]uint32{1, 2, 3})); p != 0 {
+		t.Fatalf("a source without auxiliary tape drew policy %d", p)
+	}
+	var order []int
+	res := simsched.Run(t, simsched.Config{Src: choice.New(7, "p"), Policy: 1, KeepSteps: 1000}, func() {
+		done := make(chan struct{})
+		for g := 1; g <= 3; g++ {
+			go func() {
+				simsched.Yield("start", g)
+				for i := 0; i < 5; i++ {
+					order = append(order, g)
+					simsched.Yield("step", g)
+				}
+				done <- struct{}{}
+			}()
+		}
+		for i := 0; i < 5; i++ {
+			order = append(order, 0)
+			simsched.Yield("root", i)
+		}
+		for g := 0; g < 3; g++ {
+			<-done
+		}
+	})
+	if res.Deadlock || res.Livelock || res.Panic != nil {
+		t.Fatalf("run failed: %+v", res)
+	}
+	if fmt.Sprint(order) != "[0 0 0 0 0 1 1 1 1 1 2 2 2 2 2 3 3 3 3 3]" {
+		t.Fatalf("oldest-first order: %v", order)
+	}
+	if res.Stalled == 0 || res.MaxStall < 10 {
+		t.Fatalf("stall counters: stalled=%d max=%d", res.Stalled, res.MaxStall)
+	}
+	// spinning task: root (oldest) spins until the youngest task sets the flag
+	flag := false
+	res = simsched.Run(t, simsched.Config{Src: choice.New(8, "p"), Policy: 1, FairAfter: 50}, func() {
+		go func() {
+			simsched.Yield("setter", 0)
+			flag = true
+		}()
+		for !flag {
+			simsched.Yield("spin", 0)
+		}
+	})
+	if !res.Fallback || res.Livelock || res.Deadlock {
+		t.Fatalf("spinning root: fallback=%v livelock=%v deadlock=%v steps=%d", res.Fallback, res.Livelock, res.Deadlock, res.Steps)
+	}
+	// PCT is a function of the auxiliary tape
+	run := func() (string, []uint32) {
+		src := choice.New(9, "p")
+		r := simsched.Run(t, simsched.Config{Src: src, Policy: 3}, func() {
+			done := make(chan struct{})
+			for g := 1; g <= 4; g++ {
+				go func() {
+					for i := 0; i < 30; i++ {
+						simsched.Yield("step", g)
+					}
+					done <- struct{}{}
+				}()
+			}
+			for g := 0; g < 4; g++ {
+				<-done
+			}
+		})
+		return r.TraceHash, src.AuxTape()
+	}
+	h1, a1 := run()
+	h2, a2 := run()
+	if h1 != h2 || fmt.Sprint(a1) != fmt.Sprint(a2) || len(a1) == 0 {
+		t.Fatalf("PCT runs differ or drew nothing: %s %s %v %v", h1, h2, a1, a2)
 	}
 }
